@@ -202,13 +202,16 @@ class CentroidCrop(L.LightningModule):
             )
 
             if self.return_crops:
-                crops_dict = self._generate_crops(inputs)
+                # Resize the images and the centroids before cropping (as for predicted
+                # centroids below), so that the crops are at the scale that the
+                # centered-instance model expects.
                 inputs["image"] = resize_image(inputs["image"], self.precrop_resize)
                 inputs["centroids"] *= self.precrop_resize
                 scaled_refined_peaks = []
                 for ref_peak in self.refined_peaks_batched:
                     scaled_refined_peaks.append(ref_peak * self.precrop_resize)
                 self.refined_peaks_batched = scaled_refined_peaks
+                crops_dict = self._generate_crops(inputs)
                 return crops_dict
             else:
                 return inputs
